@@ -12,6 +12,7 @@
    of every completed load of that thread, newest first. *)
 From V Require Import model.Base model.Conc model.Events model.SeqLock proofs.SeqLockConc proofs.SeqLockProofs.
 From V Require model.Blackboard proofs.BlackboardProofs.
+From V Require model.SeqLockRA proofs.SeqLockRAProofs.
 From Coq Require Import Sorted.
 Open Scope N_scope.
 
@@ -295,3 +296,44 @@ Print Assumptions BB.c12_bb_release_reenables_nonvacuous.
 Print Assumptions BB.c12_bb_release_reenables_needs_no_handle.
 Print Assumptions BB.c12_bb_writer_creatable_when_free_nonvacuous.
 Print Assumptions BB.c12_bb_release_reenables_handle_nonvacuous.
+
+(* ---------------- the sequence lock under release/acquire semantics ---------------- *)
+Module SLRA.
+Import V.model.SeqLockRA V.proofs.SeqLockRAProofs.
+
+(* With the four memory orderings of the code (sl_ords_code, i.e. after the repair 0bff03d; pinned
+   against the implementation by the trace comparison on every run), when every load and every
+   FAILED compare-exchange of write_cell may return an arbitrarily stale value (oracle) and only
+   acquire reads of release read-modify-writes transfer visibility: no byte that is used (copied
+   by a load that validates, or overwritten after a validated load copied it) is accessed
+   racily, every returned load is exactly the image its validated write_cell value designates,
+   and a thread's validated values never decrease; for every value size, any number of
+   threads, every schedule and oracle, within the 2^64 bound of the counter. *)
+Theorem c12_slra_atomic_monotone_used_race_free : forall n v0 orc progs g ls,
+  reachable (sstep sl_ords_code) (sinit n v0 orc progs) (g, ls) -> lenN (written (sg g)) < W64 ->
+  srace_used g = false /\
+  (forall t w0 w v, In (w0, w, v) (loads (ssc (ls t))) ->
+     1 <= w /\ nth_error (written (sg g)) (N.to_nat (w - 1)) = Some v) /\
+  (forall t, dchain (wc (sg g)) (loads (ssc (ls t)))).
+Proof. exact slra_atomic_monotone_used_race_free. Qed.
+
+(* every ordering is necessary; sl_fadd_release_only is the table before the repair 0bff03d
+   (finding seqlock:validated-read-unordered-with-cell-reuse) *)
+Example c12_slra_orderings_necessary :
+  used_race_after sl_weak_load ra_sched = true /\
+  used_race_after sl_fadd_acquire_only ra_sched = true /\
+  used_race_after sl_fadd_release_only ra_sched = true /\
+  used_race_after sl_weak_cas ra_sched = true /\
+  used_race_after sl_weak_fail ra_sched_fail = true /\
+  used_race_after sl_ords_code ra_sched = false /\
+  used_race_after sl_ords_code ra_sched_fail = false.
+Proof. exact slra_orderings_necessary. Qed.
+
+Example c12_slra_nonvacuous_stale :
+  let c := fst (run (sstep sl_ords_code) [0; 0;0;0;0; 1;1;1; 1;1]%nat (sinit 1 [5] [5] ra_progs)) in
+  loads (ssc (snd c 1%nat)) = [(1, 2, [7])] /\ srace_used (fst c) = false /\ wc (sg (fst c)) = 2.
+Proof. exact slra_nonvacuous_stale. Qed.
+End SLRA.
+Print Assumptions SLRA.c12_slra_atomic_monotone_used_race_free.
+Print Assumptions SLRA.c12_slra_orderings_necessary.
+Print Assumptions SLRA.c12_slra_nonvacuous_stale.
